@@ -513,14 +513,24 @@ func runNative(overlay map[string][]byte, pkgs map[string]string, reports []*Har
 				os.WriteFile(sjf, sjb, 0644)
 				outf := filepath.Join(tmp, fmt.Sprintf("out_%s_%d.jsonl", sanitize(d), sh))
 				skip := 0
+				latePanic := map[string]string{}
+				defer func() {
+					for id, msg := range latePanic {
+						if r := res[id]; r != nil && r.Panic == "" {
+							r.Panic = msg
+						}
+					}
+				}()
 				for restarts := 0; restarts < 200; restarts++ {
 					run := exec.Command(bin, "-test.run", "^TestVerifReplay$", "-test.count=1", "-test.timeout=30m")
 					run.Dir = filepath.Join(repoDir, d)
-					run.Env = append(env, "VERIF_REPLAY="+sjf, "VERIF_OUT="+outf, fmt.Sprintf("VERIF_SKIP=%d", skip))
+					// a private copy: the shards run concurrently and must not append into one shared backing array
+					run.Env = append(append([]string{}, env...), "VERIF_REPLAY="+sjf, "VERIF_OUT="+outf, fmt.Sprintf("VERIF_SKIP=%d", skip))
 					o2, runErr := run.CombinedOutput()
 					ob, _ := os.ReadFile(outf)
 					done := 0
 					started := ""
+					last := ""
 					for _, line := range strings.Split(string(ob), "\n") {
 						if strings.TrimSpace(line) == "" {
 							continue
@@ -544,6 +554,7 @@ func runNative(overlay map[string][]byte, pkgs map[string]string, reports []*Har
 								res[r.ID] = &r
 								done++
 								started = ""
+								last = r.ID
 							}
 						}
 					}
@@ -552,8 +563,15 @@ func runNative(overlay map[string][]byte, pkgs map[string]string, reports []*Har
 					}
 					// the process died while running job `started`: that job crashed the process
 					if started == "" {
-						outs[sh].err = fmt.Sprintf("native run ./%s: %v\n%s", d, runErr, tail(string(o2), 1500))
-						return
+						// no job was running: a goroutine left behind by the job that finished last brought
+						// the process down after that job's result had been written
+						if _, seen := latePanic[last]; last == "" || seen {
+							outs[sh].err = fmt.Sprintf("native run ./%s: %v\n%s", d, runErr, tail(string(o2), 1500))
+							return
+						}
+						latePanic[last] = "process crashed after the harness returned: " + tail(string(o2), 300)
+						skip = done
+						continue
 					}
 					res[started] = &nativeRun{ID: started, Panic: "process crashed: " + tail(string(o2), 300)}
 					done++
@@ -594,7 +612,7 @@ func runNative(overlay map[string][]byte, pkgs map[string]string, reports []*Har
 			for try := 0; try < tries; try++ {
 				run := exec.Command(bin, "-test.run", "^TestVerifReplay$", "-test.count=1", "-test.timeout=10m")
 				run.Dir = filepath.Join(repoDir, d)
-				run.Env = append(env, "VERIF_REPLAY="+rf, "VERIF_OUT="+filepath.Join(tmp, "raceout.json"), "GORACE=halt_on_error=0", fmt.Sprintf("VERIF_REPEAT=%d", repeat))
+				run.Env = append(append([]string{}, env...), "VERIF_REPLAY="+rf, "VERIF_OUT="+filepath.Join(tmp, "raceout.json"), "GORACE=halt_on_error=0", fmt.Sprintf("VERIF_REPEAT=%d", repeat))
 				o, _ := run.CombinedOutput()
 				if strings.Contains(string(o), "WARNING: DATA RACE") {
 					return true
@@ -737,7 +755,7 @@ func runNative(overlay map[string][]byte, pkgs map[string]string, reports []*Har
 					outf := filepath.Join(tmp, fmt.Sprintf("schedout_%s_%d_%d.jsonl", sanitize(d), try, ji))
 					run := exec.Command(bin, "-test.run", "^TestVerifReplay$", "-test.count=1", "-test.timeout=5m")
 					run.Dir = filepath.Join(repoDir, d)
-					run.Env = append(env, "VERIF_REPLAY="+jf1, "VERIF_OUT="+outf, "VERIF_SKIP=0")
+					run.Env = append(append([]string{}, env...), "VERIF_REPLAY="+jf1, "VERIF_OUT="+outf, "VERIF_SKIP=0")
 					if try == 2 {
 						run.Env = append(run.Env, "GOMAXPROCS=1")
 					}
@@ -886,6 +904,18 @@ func (nr *nativeResult) confirms(v *Violation) (bool, string) {
 	id := v.Witness.Notes["vid"]
 	r := nr.results[id]
 	if r == nil {
+		// the witness chosen for this violation cannot run natively (e.g. it waits out a virtual-time
+		// timeout): another path of the same harness whose native run shows the same assertion failing
+		// confirms it just as well
+		if v.Kind == "assert" {
+			for id2, r2 := range nr.results {
+				if strings.HasPrefix(id2, v.Harness+"/") {
+					if ok2, _ := confirmsRun(v, r2); ok2 {
+						return true, ""
+					}
+				}
+			}
+		}
 		return false, "no native result"
 	}
 	ok, why := confirmsRun(v, r)
@@ -893,6 +923,18 @@ func (nr *nativeResult) confirms(v *Violation) (bool, string) {
 		for _, sr := range nr.schedResults[id] {
 			if ok2, _ := confirmsRun(v, sr); ok2 {
 				return true, ""
+			}
+		}
+		// timing decides which of the harness's alternatives shows the failure natively: a native run of
+		// another path of the same harness in which the same assertion fails is a failing run of the real
+		// code all the same
+		if v.Kind == "assert" {
+			for id2, r2 := range nr.results {
+				if strings.HasPrefix(id2, v.Harness+"/") {
+					if ok2, _ := confirmsRun(v, r2); ok2 {
+						return true, ""
+					}
+				}
 			}
 		}
 		if nr.schedErr != "" {
